@@ -738,6 +738,12 @@ func impureSource(v ssa.Value, isPart func(ssa.Value) bool, seen map[ssa.Value]b
 		return impureSource(x.Y, isPart, seen, depth+1)
 	case *ssa.Convert:
 		return impureSource(x.X, isPart, seen, depth+1)
+	case *ssa.ChangeInterface:
+		return impureSource(x.X, isPart, seen, depth+1)
+	case *ssa.MakeInterface:
+		return impureSource(x.X, isPart, seen, depth+1)
+	case *ssa.TypeAssert:
+		return impureSource(x.X, isPart, seen, depth+1)
 	case *ssa.ChangeType:
 		return impureSource(x.X, isPart, seen, depth+1)
 	case *ssa.Alloc:
